@@ -25,7 +25,7 @@ CHECKS = {
          'DESIGN.md §4 C06'),
  'C08': ('model_checking',
          'TLA+ Paging128 specification model-checked (lock, ROM, one-bank-per-write as invariants/action properties) + every recorded paging step of the real simulators validated as a Paging128 action by TLC',
-         'Exhaustive model check of the paging state machine; every (o7ffd state x port class x value) edge and random histories are driven through real OUT (C),r / OUT (n),A / OUTI / OUTD / OTIR / OTDR and LD (nn),A instructions on the four simulators (128K Memory + trace.Tracer) and through skoolutils.Memory; TLC validates each recorded step (o7ffd, tracer copy, CPU-visible and Python-visible page ids, one cell per physical page) as the corresponding spec action; register ranges, ROM immutability and T monotonicity are evaluated on single steps of all 1792 opcode slots.',
+         'Exhaustive model check of the paging state machine; every (o7ffd state x port class x value) edge and random histories are driven through real OUT (C),r / OUT (n),A / OUTI / OUTD / OTIR / OTDR and LD (nn),A instructions on the four simulators (128K Memory + trace.Tracer) and through skoolutils.Memory; TLC validates each recorded step (o7ffd, tracer copy, CPU-visible and Python-visible page ids, one cell per physical page) as the corresponding spec action; register ranges, ROM immutability and T monotonicity are evaluated on single steps of all 1792 opcode slots (48K and locked 128K memory, where a store into a page that is not mapped in is visible) and on every slot followed by an accepted frame interrupt with SP at the ROM/RAM/64K edges (real trace loops of all four simulators).',
          'Quick tier samples 6 of 69 values per edge; thorough uses all 256. One data cell per physical page stands for the bank contents.',
          'DESIGN.md §4 C08'),
  'C19': ('model_checking',
@@ -35,8 +35,8 @@ CHECKS = {
          'DESIGN.md §4 C19'),
  'C01': ('model_checking',
          'TLA+ Tiling specification (model-checked) + TLC judging of recorded sna2skool -> skool2bin pipelines against the original memory image',
-         'Generated memory images, ranges, control files (all block/sub-block types, sublength lists with bases, multipliers, string/byte mixes, M directives) and option vectors are run through the real sna2skool.main and skool2bin.main; TLC checks statement order/coverage and that every non-ignored original byte is reproduced at its address.',
-         'Control files are generated by harness/drivers/ctlgen.py with boundaries placed by a Python port of Z80Asm!Length; base m is not used where a negative operand is not meaningful (DEFS size, RST, IN/OUT port); mid-range i blocks and L directives are not generated yet.',
+         'Generated memory images, ranges, control files (all block/sub-block types, sublength lists with bases, multipliers, string/byte mixes, L loops, mid-range i blocks) and option vectors (-H -l -w -r, DefbSize/DefmSize/DefwSize, Opcodes, Wrap ...) are run through the real sna2skool.main and skool2bin.main; TLC checks statement order/coverage and that every non-ignored original byte is reproduced at its address.',
+         'Control files are generated by harness/drivers/ctlgen.py with boundaries placed by a Python port of Z80Asm!Length; base m is not used where a negative operand is not meaningful (DEFS size, RST, IN/OUT port); an ignored block in the middle of the range is followed by an @org directive (a hand-written control file needs one there); with -r the boundaries respect the argument byte of RST 8.',
          'DESIGN.md §4 C01'),
  'C02': ('model_checking',
          'TLA+ specifications of the instruction templates/operands (Z80Asm) and of the operand-literal grammar (AsmLit); TLC judges disassemble->assemble and assemble->disassemble->assemble round trips of the real Assembler/Disassembler',
@@ -45,7 +45,7 @@ CHECKS = {
          'DESIGN.md §4 C02'),
  'C14': ('model_checking',
          'TLA+ CtlGen specification of the directive-map algorithm (FindTerminal transcribed) model-checked for the tiling invariant; TLC judges recorded calls of the real _find_terminal_instruction and the control files sna2ctl writes (order, terminator, code map inside code blocks, sna2skool/skool2bin consequences)',
-         'Exhaustive model check over all abstract images of 5 addresses (instruction lengths 1-3, END flags, code sets); the real _find_terminal_instruction is bound to the specification operator on random abstract images; real sna2ctl.main runs on image classes (incl. structured multi-routine programs with untaken calls and indirect jumps, ranges ending mid-instruction) with code maps in five formats built from real simulator traces, then sna2skool and skool2bin on its output.',
+         'Exhaustive model check over all abstract images of 5 addresses (instruction lengths 1-3, END flags, code sets); the real _find_terminal_instruction is bound to the specification operator on random abstract images; real sna2ctl.main runs on image classes (incl. structured multi-routine programs with untaken calls and indirect jumps, ranges ending mid-instruction) with code maps in five formats built from real simulator traces, plus every opcode slot (1792) once in straight-line images with a straight-line code map and -C; then sna2skool and skool2bin on its output.',
          'Termination is bounded liveness (20 s CPU cap per run). Arbitrary (non-trace) address sets are judged for termination/tiling/map-in-code only. An overlap warning caused by a code-map instruction that straddles the requested END is inherent in the input and not counted.',
          'DESIGN.md §4 C14'),
  'C10': ('model_checking',
@@ -55,17 +55,17 @@ CHECKS = {
          'DESIGN.md §4 C10'),
  'C12': ('model_checking',
          'TLA+ Loader specification (LD-BYTES stack protocol, Prefill rule) model-checked; TLC executes the tape\'s machine-code loader with the Z80 specification and judges real bin2tap -> tap2sna round trips',
-         'Exhaustive model check of the loader/stack protocol for all placements of ORG/length/STACK in a window; for every generated configuration (sizes 1..41000, STACK below / overlapping each pre-filled byte / inside / above the data, CLEAR, screen, tap/pzx, 128K banks/--7ffd/--loader) TLC checks the main block on the tape against Prefill, runs the loader bytes found on the tape through Z80!Step up to the LD-BYTES entry contract, and judges the snapshot tap2sna produced (PC, SP, memory outside the 14 scratch bytes, banks, 7ffd).',
+         'Exhaustive model check of the loader/stack protocol for all placements of ORG/length/STACK in a window; for every generated configuration (sizes 1..41000, ORG from 0x4000 up, run-length-sensitive contents, STACK below / overlapping each pre-filled byte / inside / above the data, CLEAR, screen, tap/pzx, 128K banks/--7ffd/--loader, with --start and - 48K - without it) TLC checks the main block on the tape against Prefill, runs the loader bytes found on the tape through Z80!Step up to the LD-BYTES entry contract, and judges the snapshot tap2sna produced (PC, SP, memory outside the 14 scratch bytes, banks, 7ffd).',
          'ROM LD-BYTES is an abstract contract in the model; the end-to-end part runs the real ROM in the real simulator. Loads use the default simulated-LOAD configuration here (C13 varies it).',
          'DESIGN.md §4 C12'),
  'C18': ('model_checking',
          'TLA+ Wrap specification (greedy placement state machine model-checked for order/width/rows) + TLC judging of the projected output of skool2asm, skool2html and sna2skool for generated unique-token documents',
-         'Generated skool/ctl documents with unique word tokens (all sections, groups of 1..6 instructions, braces in every allowed position, tables/lists, widths 40..200 with systematic end-of-line sweeps) go through the real skool2asm.main, skool2html.main and sna2skool.main; TLC checks words in order exactly once at the right instruction/entry, every instruction once with address and operation, and the width rule with its unbreakable-word exception and warning.',
-         'HTML is tokenised with html.parser (trusted). Wrap points different from the greedy model are drift. Mixed CR/LF terminators are outside the property (drift).',
+         'Generated skool/ctl documents with unique word tokens (all sections, groups of 1..6 instructions, braces in every allowed position, #TABLE/#LIST blocks in descriptions, block comments, register descriptions and instruction comments with widths swept around the width available at that place, line widths 40..200 with systematic end-of-line sweeps) go through the real skool2asm.main, skool2html.main and sna2skool.main; TLC checks words in order exactly once at the right instruction/entry, every instruction once with address and operation, and the width rule with its unbreakable-word exception and warning.',
+         'HTML is tokenised with html.parser (trusted). Wrap points different from the greedy model are drift; a :w table that is not narrowed below the documented table width to fit a narrower place is drift (it is warned about). Mixed CR/LF terminators are outside the property (drift).',
          'DESIGN.md §4 C18'),
  'C09': ('model_checking',
          'TLA+ specifications of the Z80 RLE codec (Z80Rle: SpecDecode from the format text, encoder state machine), of the header/chunk field maps (SnapFields) and of bin2sna/snapmod options as a state machine with frame conditions (SnapOps), model-checked; TLC enumerates the RLE string space and looks up the real encoder/decoder, judges whole files written by the real writers, and validates every recorded bin2sna/snapmod step as a SnapOps action',
-         'RLE: every string over {ED,00,01} up to length 9 (10 thorough) x both block forms through the real encoder and every well-formed block over {ED,00,01,02,05} up to length 7 through the real and an independent decoder, enumerated by TLC; long runs through real files; generated machine states x {48K,128K,+2} x three writer routes written as .z80 and .szx and read back by skoolkit and by an independent decoder, header bytes decoded by TLC; random bin2sna/snapmod option sequences (--reg/--state/--poke/--move/--patch incl. bank prefixes and 16K boundaries) validated step by step with the full state diff.',
+         'RLE: every string over {ED,00,01} up to length 9 (10 thorough) x both block forms through the real encoder and every well-formed block over {ED,00,01,02,05} up to length 7 through the real and an independent decoder, enumerated by TLC; long runs through real files; generated machine states x {48K,128K,+2} x three writer routes written as .z80 and .szx and read back by skoolkit and by an independent decoder, header bytes decoded by TLC; random bin2sna/snapmod option sequences (--reg/--state/--poke/--move/--patch incl. bank prefixes and 16K boundaries, plus all 64 source/destination bank pairs of a paged --move with explicit prefixes) validated step by step with the full state diff.',
          'zlib and CRC-32 are trusted projections; byte-by-byte comparison of decoded 16K banks is done in Python and given to TLC as an equality fact with the first differing offset; registers the caller does not name have no documented default and are not compared across formats.',
          'DESIGN.md §4 C09'),
  'C15': ('model_checking',
@@ -80,7 +80,7 @@ CHECKS = {
          'DESIGN.md §4 C16'),
  'C17': ('model_checking',
          'TLA+ Macro specification (term AST, integer expression semantics, environment of variables/memory/snapshot stack as a state machine; Expand) model-checked for #PUSHS/#POPS/#POKES/#LET/#FOR histories; TLC evaluates Macro!Expand on every generated term tree and compares with what the real skool2asm and skool2html printed at six places of a skool file',
-         'Random term trees (macro nesting <= 4: #EVAL #N #IF #MAP #FOR #FOREACH #WHILE #LET #FORMAT #DEF #PEEK #POKES #PUSHS #POPS #CHR #STR #SPACE #PC, all arithmetic operators) preceded by state-changing preambles, rendered in randomly chosen documented concrete syntaxes (bare/parenthesised/keyword integers, every delimiter family, pre-expansion, hex/decimal, whitespace), planted in title, description, register, mid-block, instruction and end comments x 9 base/case option sets; ASM = HTML = every place = model.',
+         'Random term trees (macro nesting <= 4: #EVAL #N #IF #MAP #FOR #FOREACH #WHILE #LET #FORMAT #DEF #PEEK #POKES #PUSHS #POPS #CHR #STR #SPACE #PC, all arithmetic operators) preceded by state-changing preambles, rendered in randomly chosen documented concrete syntaxes (bare/parenthesised/keyword integers, every delimiter family, pre-expansion, hex/decimal, whitespace), planted in title, description, register, mid-block, instruction, multi-instruction and end (after a multi-instruction group) comments x 9 base/case option sets; ASM = HTML = every place = model.',
          'html.unescape is trusted; inputs stay in the documented domain (no division by zero, no negative shifts, integer-only format fields); operand values within +-2^20 because TLC integers are 32-bit; image/link macros are C15/C16.',
          'DESIGN.md §4 C17'),
  'C13': ('model_checking',
